@@ -478,6 +478,15 @@ def r7_no_stale_map_key(ctx):
         yield o
 
 
+def r8_shared_tokenizer(ctx):
+    """a conformant document is only accepted if its segments reach the validator intact: tokenizer loop exits, buffer
+    conservation and the CR/LF strip set are the obligations of C01.R3/R5"""
+    from . import c01
+    for fn in (c01.r3_tokenizer_exits, c01.r5_strip_set):
+        for o in fn(ctx):
+            yield o
+
+
 RULES = [
     Rule('C02.R1', 'every index entry is selectable: whitelist, the map\'s own envelope code lists, BHT tuple', r1_selectable, floor=90),
     Rule('C02.R2', 'literal map paths in code resolve in every map they are applied to', r2_literal_paths, floor=22),
@@ -486,4 +495,5 @@ RULES = [
     Rule('C02.R5', 'walker counting/ordering atoms: limits, resets, pending-missing conditions, position filter', r5_walker_wiring, floor=12),
     Rule('C02.R6', 'shared with C13.R1/R3/R4: the recognisers accept every value of the X12 value languages', r6_shared_recognisers, floor=33),
     Rule('C02.R7', 'the map-switch key (BHT02) is never carried from one transaction set to the next', r7_no_stale_map_key, floor=1),
+    Rule('C02.R8', 'shared with C01.R3/R5: no segment is damaged at a buffer boundary', r8_shared_tokenizer, floor=6),
 ]
